@@ -461,6 +461,10 @@ static Type *declspec(Token **rest, Token *tok, VarAttr *attr) {
         int64_t val = const_expr(&tok, tok);
         if (val < 0 || val > INT32_MAX)
           error_tok(start, "requested alignment is out of range");
+        // C11 6.7.5p3: zero (no effect) or a power of two. Anything else
+        // would reach the assembler as an invalid .align operand.
+        if (val & (val - 1))
+          error_tok(start, "requested alignment is not a power of 2");
         align = val;
       }
       if (attr->align < align)
